@@ -186,14 +186,14 @@ impl Prop for C05 {
         }
         v.push(Scope::new(
             "nested-and-wide",
-            "boxes nested 2..5 deep with gaps 1..2 (every box exactly one rect), and boxes whose label or left neighbour contains a double-width character",
+            "boxes nested 2..5 deep with gaps 1..2 (every box exactly one rect), and boxes whose label (plain or in double quotes) or left neighbour contains a double-width character",
             |f| {
                 for depth in 2..=5usize {
                     for gap in 1..=2usize {
                         f(Case::sn("nested", vec![depth as i64, gap as i64]));
                     }
                 }
-                for label in ["一", "一二", "a一", "一a", "é一b"] {
+                for label in ["一", "一二", "a一", "一a", "é一b", "\"一\"", "\"a一\"", "\"一a\""] {
                     for pos in 0..3 {
                         f(Case::snx("wide", vec![pos], vec![label.to_string()]));
                     }
